@@ -25,6 +25,10 @@ for d in sorted((V / "seeded").iterdir()):
     if caught == "NO" and meta.get("cross_detected_by"):
         caught = f"no - by {meta['cross_detected_by']['check']} (see note)"
         sigs = meta["cross_detected_by"]["signatures"]
+    if meta.get("neutralised_by_fix"):
+        nf = meta["neutralised_by_fix"]
+        caught = f"no longer a violation since fix {nf['commit']} (see note); on its base tree: yes"
+        sigs = nf["signatures_on_base"]
     s = "; ".join(f"`{x}`".replace("|", "\\|") for x in sigs[:2]) + (f" (+{det.get('n_signatures',0)-2} more)" if det.get("n_signatures", 0) > 2 else "")
     needs = meta["needs_to_manifest"].replace("|", "\\|")
     rows.append(f"| {d.name} | {meta['property']} | {needs} | {caught} | {s} |")
